@@ -740,8 +740,11 @@ loop:
 				}
 
 				if fr.Type() == FrameResetStream {
-					// only send go away on idle stream not on an already-closed stream
-					if fr.Stream() > sc.lastID {
+					// only send go away on idle stream not on an already-closed stream.
+					// A stream we refused is not idle either: its id is above
+					// lastID, which only moves for streams that were accepted,
+					// but the peer is entitled to cancel it.
+					if _, refused := sc.resetSent[fr.Stream()]; fr.Stream() > sc.lastID && !refused {
 						sc.writeGoAway(fr.Stream(), ProtocolError, "RST_STREAM on idle stream")
 					}
 
